@@ -74,6 +74,11 @@ func ops() []op {
 			return m.AddBinding(macA, ip)
 		}})
 	}
+	// withdrawing the IPv4 half: the binding stays (mode, IPv6 half) but no IPv4 address is bound any more
+	o = append(o, op{"AddBinding(A,nil)", func(m *antispoof.Manager, x *model) error {
+		x.b.v4, x.b.mode, x.b.present = nil, x.cur, true
+		return m.AddBinding(macA, nil)
+	}})
 	o = append(o, op{"AddBindingV6(A,2001:db8::5)", func(m *antispoof.Manager, x *model) error {
 		x.b.v6, x.b.mode, x.b.present = ip6, x.cur, true
 		return m.AddBindingV6(macA, ip6)
